@@ -7,13 +7,15 @@ Removes the agent's worktree afterwards.
 usage: install_seeds.py <PROP> [...]"""
 import json, os, shutil, subprocess, sys
 V = "/verif"
-STAGE = "/tmp/seeds2"
+ROUND = int(os.environ.get("SEED_ROUND", "2"))
+WT = os.environ.get("SEED_WT", "/tmp/wt2")
+STAGE = os.environ.get("SEED_STAGE", "/tmp/seeds2")
 os.makedirs(STAGE, exist_ok=True)
 for prop in sys.argv[1:]:
     staged = None
     if "-" in prop:  # an already staged seed id: re-verify and install just that one
         staged, prop = prop, prop.split("-")[0]
-    wt = f"/tmp/wt2/{prop}"
+    wt = f"{WT}/{prop}"
     src = os.path.join(wt, "_seeded")
     ids = [staged] if staged else (sorted(os.listdir(src)) if os.path.isdir(src) else [])
     if staged:
@@ -44,8 +46,8 @@ for prop in sys.argv[1:]:
             elif f == "patch.diff" or f == "RUN.txt" or f.endswith(".go"):
                 shutil.copy(os.path.join(STAGE, sid, f), dst)
         meta = {
-            "id": sid, "property": prop, "round": 2,
-            "origin": "independent sub-agent given only the property text and a scratch worktree (nothing from /verif); round 2, after the rules of round 1 were finished; told which round-1 sites to avoid",
+            "id": sid, "property": prop, "round": ROUND,
+            "origin": "independent sub-agent given only the property text and a scratch worktree (nothing from /verif); round %d, run after the checks of the previous round were finished and committed; told only which earlier sites to avoid" % ROUND,
             "breaks": am.get("clause_broken", ""), "site": am.get("site", ""), "what_changed": am.get("what_changed", ""),
             "needs_to_manifest": am.get("needs_to_manifest", ""), "why_tests_miss_it": am.get("why_tests_miss_it", ""),
             "confirmed_by_me": {"how": "tools/verify_seeds.py in a scratch worktree of /repo HEAD (removed afterwards): demo `go test -run Seeded <pkg>` on unchanged tree, again after `git apply patch.diff`, then `go build ./... && go vet ./... && go test -vet=off -count=1 ./...` with the patch and without the demo",
